@@ -2,7 +2,7 @@
 
 Explicit-state search over *histories of compilations* on the real process-wide compiler state.
 
-* Alphabet: the 40 designs of verif/gen/c11_designs.py (accepted ones and rejected ones, one per failure stage).
+* Alphabet: the 42 designs of verif/gen/c11_designs.py (accepted ones and rejected ones, one per failure stage).
 * Golden outcome of a letter = its compilation in a fresh interpreter (PYTHONHASHSEED=0) with an empty history.
 * History tree: every history up to a complete length is executed in one interpreter; the tree is explored
   depth-first with os.fork() as the state snapshot (verif/gen/c11_tree.py, a stand-alone script started in fresh
@@ -208,7 +208,7 @@ CORE8 = CORE6 + ["env3", "env5"]
 
 # last letters (victims) of the longest histories over the full alphabet; every letter is additionally its own victim
 VICTIMS10 = ["comb", "coro", "syncflag", "prefix", "glob5", "env5", "dyn_b", "types_asc", "types_desc",
-             "seqattrs_b", "base_b"]
+             "seqattrs_b", "base_b", "popcnt_set", "popcnt_clear"]
 VICTIMS_THOROUGH = VICTIMS10 + ["glob3", "env3", "dyn_a", "seqattrs_a", "base_a", "portinit", "alias", "pushed"]
 
 
